@@ -15,7 +15,8 @@ REQ = ['a', 'b', 'c']
 OPT = ['d', 'e', 'g']
 KWREQ = ['k', 'm']
 KWOPT = ['n', 'p']
-XKW = ['u', 'v', 'w']
+# extra keyword names; the last ones coincide with names klepto uses internally for its own parameters (a cached function may use them too)
+XKW = ['u', 'v', 'w', 'func', 'ignored', 'tol', 'key']
 
 DEFAULTS = [['i', 0], ['i', 7], ['s', 'z'], ['n'], ['f', '0.5'], ['t', []]]
 
